@@ -90,6 +90,10 @@ def rule_restore(ck):
             d = f"ptrace({expr_str(rq, 4)}, pid, {expr_str(st, 4)}, iov)"
             ok = (rq == ("const", want) or req in expr_str(rq, 4)) and (st == ("const", 0x202) or "NT_X86_XSTATE" in expr_str(st, 4)) and "arg" in expr_str(expr_of(g, pt[0].args[1]), 6)
         ck.ob("pair.ext_state", f"ExtendedState::{nm}/{req}(NT_X86_XSTATE)-on-the-given-thread", ok, d, g.loc())
+    # what is saved is what the thread had: the snapshot kept for the restore is not edited (orig_rax included — it is what
+    # makes the kernel restart an interrupted syscall after the call)
+    ups = [c for c in nw.calls() if c.name.endswith("RegisterMap::update") or c.name.endswith("RegisterMap::update_from")]
+    ck.ob("pair.ccx", "CallContext::new/saved-registers-are-the-unmodified-snapshot", not ups, f"{len(ups)} edits of the snapshot before it is stored", nw.loc(ups[0].bb) if ups else nw.loc(), what="the register file restored after an injected call differs from the one the thread had (a thread stopped inside a restartable syscall continues with -ERESTART* as its result)")
     prims = {CH + "::mmap", CH + "::jump", CH + "::call_fn", CH + "::munmap"}
     sites = who_calls(prog, lambda c: c.name in prims)
     ck.floor("wmc.trampoline", "trampoline primitive call sites", len(sites), 5)
